@@ -357,13 +357,23 @@ enum LE {
     Reverse(Box<LE>),
 }
 
+/// the element `NAN_EL` stands for a NaN (an element that is not equal to itself)
+const NAN_EL: i64 = i64::MIN;
+fn num(x: i64) -> String {
+    if x == NAN_EL { "NaN".into() } else { x.to_string() }
+}
+/// equality of plain sequences of IEEE numbers
+fn seq_eq(a: &[i64], b: &[i64]) -> bool {
+    a.len() == b.len() && a.iter().zip(b.iter()).all(|(x, y)| x == y && *x != NAN_EL)
+}
+
 impl LE {
     fn src(&self) -> String {
         match self {
             LE::Var(k) => format!("zl{}", k),
-            LE::Lit(xs) => format!("[{}]", xs.iter().map(|x| x.to_string()).collect::<Vec<_>>().join(", ")),
-            LE::Cons(x, e) => format!("cons({}, {})", x, e.src()),
-            LE::ConsEnd(x, e) => format!("cons_end({}, {})", x, e.src()),
+            LE::Lit(xs) => format!("[{}]", xs.iter().map(|x| num(*x)).collect::<Vec<_>>().join(", ")),
+            LE::Cons(x, e) => format!("cons({}, {})", num(*x), e.src()),
+            LE::ConsEnd(x, e) => format!("cons_end({}, {})", num(*x), e.src()),
             LE::Tail(e) => format!("tail({})", e.src()),
             LE::Take(n, e) => format!("take({}, {})", n, e.src()),
             LE::Drop(n, e) => format!("drop({}, {})", n, e.src()),
@@ -396,7 +406,8 @@ fn gen_le(rng: &mut Rng, nvars: usize, depth: usize, next: &mut i64) -> LE {
         return LE::Lit((0..n).map(|_| { *next += 1; *next }).collect());
     }
     let d = depth - 1;
-    let mut fresh = || { *next += 1; *next };
+    let nan = rng.chance(1, 12);
+    let mut fresh = || { if nan { NAN_EL } else { *next += 1; *next } };
     match rng.below(12) {
         0 | 1 => { let x = fresh(); LE::Cons(x, Box::new(gen_le(rng, nvars, d, next))) }
         2 | 3 | 4 => { let x = fresh(); LE::ConsEnd(x, Box::new(gen_le(rng, nvars, d, next))) }
@@ -417,7 +428,7 @@ fn list_of(ctx: &mut numbat::Context, name: &str) -> Result<Vec<i64>, String> {
             let mut v = Vec::new();
             for x in l.iter() {
                 match x {
-                    Value::Quantity(q) => v.push(q.unsafe_value().to_f64().round() as i64),
+                    Value::Quantity(q) => { let f = q.unsafe_value().to_f64(); v.push(if f.is_nan() { NAN_EL } else { f.round() as i64 }) }
                     _ => return Err("non-numeric element".into()),
                 }
             }
@@ -450,7 +461,7 @@ fn run_lang(base: &numbat::Context, out: &mut Out, stmts: &[String]) {
             (Ok(Err(e)), _) => { out.oracle_fail(&format!("lang:{}", text), &text, &format!("`{}` fails: {}", code, format!("{}", e).replace('\n', " "))); return; }
             (Ok(Ok(())), "fail") => { out.oracle_fail(&format!("lang:{}", text), &text, &format!("`{}` succeeds, a plain sequence gives the empty-list error", code)); return; }
             (Ok(Ok(())), w) => {
-                let wv: Vec<i64> = w.trim_matches(|c| c == '[' || c == ']').split(',').filter_map(|x| x.trim().parse().ok()).collect();
+                let wv: Vec<i64> = w.trim_matches(|c| c == '[' || c == ']').split(',').filter_map(|x| if x.trim() == "NaN" { Some(NAN_EL) } else { x.trim().parse().ok() }).collect();
                 expected.retain(|(n, _)| n != name);
                 expected.push((name.to_string(), wv));
             }
@@ -466,6 +477,21 @@ fn run_lang(base: &numbat::Context, out: &mut Out, stmts: &[String]) {
             match catch(std::panic::AssertUnwindSafe(|| ctx.interpret(&lcode, numbat::resolver::CodeSource::Internal))) {
                 Ok(Ok((_, numbat::InterpreterResult::Value(numbat::value::Value::Boolean(true))))) => {}
                 _ => { out.oracle_fail(&format!("lang:{}", text), &text, &format!("after `{}`: `{}` is not true", code, lcode)); return; }
+            }
+        }
+    }
+    // equality is equality of the sequences, whether or not two list values share storage
+    for (i, (n1, v1)) in expected.iter().enumerate() {
+        for (n2, v2) in expected.iter().skip(i) {
+            let code = format!("{} == {}", n1, n2);
+            let want = seq_eq(v1, v2);
+            match catch(std::panic::AssertUnwindSafe(|| ctx.interpret(&code, numbat::resolver::CodeSource::Internal))) {
+                Ok(Ok((_, numbat::InterpreterResult::Value(numbat::value::Value::Boolean(b))))) if b == want => {}
+                Ok(Ok((_, numbat::InterpreterResult::Value(numbat::value::Value::Boolean(b))))) => {
+                    out.oracle_fail(&format!("lang-eq:{}", text), &text, &format!("`{}` is {} but the sequences {:?} and {:?} are {}", code, b, v1.iter().map(|x| num(*x)).collect::<Vec<_>>(), v2.iter().map(|x| num(*x)).collect::<Vec<_>>(), if want { "equal" } else { "not equal (NaN is not equal to itself)" }));
+                    return;
+                }
+                _ => { out.oracle_fail(&format!("lang-eq:{}", text), &text, &format!("`{}` does not evaluate to a boolean", code)); return; }
             }
         }
     }
@@ -485,7 +511,7 @@ fn gen_lang(rng: &mut Rng) -> Vec<String> {
         let k = if !vars.is_empty() && rng.chance(1, 6) { rng.below(vars.len()) } else { vars.len() };
         match e.eval(&vars) {
             Some(v) => {
-                stmts.push(format!("zl{} = {} => [{}]", k, e.src(), v.iter().map(|x| x.to_string()).collect::<Vec<_>>().join(", ")));
+                stmts.push(format!("zl{} = {} => [{}]", k, e.src(), v.iter().map(|x| num(*x)).collect::<Vec<_>>().join(", ")));
                 if k == vars.len() { vars.push(v) } else { vars[k] = v }
             }
             None => stmts.push(format!("zl{} = {} => fail", k, e.src())),
